@@ -324,3 +324,145 @@ def e_auth(k: int) -> bool:
             res = be.op(7)
         tick('e_auth', [a, is_async])
         return res == ('done', 7) and be.calls == a + 1 and be.auth_calls == a + 1
+
+
+# =========================================================================== S3-compatible and B2 adapters against fake services
+from vt import fakes  # noqa: E402
+
+ROPS = ['upload', 'upload_stream', 'download', 'download_stream', 'exists', 'delete', 'list']
+RFAULTS = ['503', '500', '429', 'connect', 'drop', '401']
+
+
+COUNTS = [0, 1, 2, 3, 5, 10 ** 9]
+
+
+def remote_fault_case(kind, op, fault, count, size_i, skip):
+    size = [0, 5, 3 * CHUNK + 2][size_i]
+    data = bytes((i * 11 + 1) % 251 for i in range(size))
+    name = 'data/ab/cd-ef'
+    svc = fakes.FakeS3(page=2) if kind == 's3' else fakes.FakeB2(page=2)
+    be = fakes.s3_backend(svc) if kind == 's3' else fakes.b2_backend(svc)
+    loop = rt.MiniLoop(budget=3_000_000)
+    svc.objs['other/1'] = b'o1'
+    svc.objs['other/2'] = b'o2'
+    svc.objs['other/3'] = b'o3'
+    if op in ('download', 'download_stream', 'exists', 'delete'):
+        svc.objs[name] = data
+
+    def is_op_request(r):
+        u = str(r.url)
+        if 'authorize_account' in u or 'list_buckets' in u:
+            return False
+        return True
+    if fault == '401':
+        if kind == 's3':
+            return True, 'n/a'
+    elif fault == 'drop' and (op not in ('download', 'download_stream') or size == 0):
+        return True, 'n/a'
+    status = {'503': 503, '500': 500, '429': 429}.get(fault, 503)
+    fkind = {'connect': 'connect', 'drop': 'drop'}.get(fault, 'status')
+    if fault != '401':
+        svc.plan = fakes.FaultPlan(kind=fkind, status=status, match=is_op_request, skip=skip, count=count,
+                                   headers={'retry-after': '0'} if fault == '429' else {}, drop_after=1)
+    raw = CountingStream(data)
+    sink = io.BytesIO()
+    result = {}
+
+    async def go():
+        if kind == 'b2':
+            await be.exists('warm-up')           # authorise first, then arm the expiry
+        if fault == '401':
+            svc.expire_next = count
+        if op == 'upload':
+            await be.upload(name, data)
+        elif op == 'upload_stream':
+            await be.upload_stream(name, raw, len(data), CHUNK)
+        elif op == 'download':
+            result['got'] = await be.download(name)
+        elif op == 'download_stream':
+            await be.download_stream(name, sink, CHUNK)
+            result['got'] = sink.getvalue()
+        elif op == 'exists':
+            result['got'] = await be.exists(name)
+        elif op == 'delete':
+            await be.delete(name)
+        else:
+            result['got'] = sorted([x async for x in be.list_files('other/')])
+    n0 = len(svc.requests)
+    raised = None
+    try:
+        loop.run_until_complete(go())
+    except RecursionError as e:
+        raised = e
+    except fakes.RequestStorm:
+        return False, f'{kind} {op}: {fault} x{count}: more than {svc.max_requests} requests for one operation - retries are not bounded'
+    except Exception as e:
+        raised = e
+    nreq = len(svc.requests) - n0
+    used = svc.plan.hits if fault != '401' else count - svc.expire_next
+    if isinstance(raised, RecursionError):
+        return False, f'{kind} {op}: {fault} x{count}: unbounded re-authentication recursion after {nreq} requests'
+    INF = 10 ** 9
+    if count >= INF and fault != '401' and used > 0:
+        # the fault never goes away: a bounded number of attempts, then an error; nothing wrong left behind
+        if raised is None:
+            return False, f'{kind} {op}: permanent {fault} fault but the operation reported success'
+        if nreq > 60:
+            return False, f'{kind} {op}: permanent {fault}: {nreq} requests before giving up'
+        if op in ('upload', 'upload_stream') and svc.objs.get(name) not in (None, data):
+            return False, f'{kind} {op}: permanent fault left a wrong object'
+        return True, ''
+    if raised is not None:
+        if used > 3 and nreq <= 60:
+            return True, ''          # more consecutive faults than the retry budget: a bounded error is the specified outcome
+        return False, f'{kind} {op}: {used} transient {fault} fault(s) ended in {raised!r} after {nreq} requests'
+    live = svc.objs if kind == 's3' else svc.live()
+    if op in ('upload', 'upload_stream'):
+        if live.get(name) != data:
+            return False, f'{kind} {op}: after {used} transient {fault} fault(s) the stored object has {None if live.get(name) is None else len(live[name])} bytes, expected {len(data)}'
+        if op == 'upload_stream' and any(s != 0 for s in raw.starts):
+            return False, f'{kind} {op}: a retry started reading the payload at {raw.starts}'
+    elif op in ('download', 'download_stream'):
+        if result['got'] != data:
+            return False, f'{kind} {op}: after {used} transient {fault} fault(s) delivered {len(result["got"])} bytes, expected {len(data)}'
+    elif op == 'exists':
+        if result['got'] is not True:
+            return False, f'{kind} exists: wrong answer after transient faults'
+    elif op == 'delete':
+        if name in live:
+            return False, f'{kind} delete: object still there'
+    else:
+        if result['got'] != ['other/1', 'other/2', 'other/3']:
+            return False, f'{kind} list: {result["got"]} after {used} transient fault(s) (pages of 2)'
+    return True, ''
+
+
+def known_f10(args):
+    """B2: a 5xx or 401 answer that never goes away, on any operation."""
+    ki, opi, fi, count, size_i, skip = _rdecode(args['k'])
+    return ki == 1 and RFAULTS[fi] in ('503', '500', '401') and COUNTS[count] >= 10 ** 9
+
+
+def _rdecode(k):
+    out = []
+    for r in [2, 7, 6, 6, 3, 2]:
+        out.append(k % r)
+        k //= r
+    return out
+
+
+def e_remote_faults(k: int) -> bool:
+    """
+    pre: shard(2 * 7 * 6 * 6 * 3 * 2)[0] <= k < shard(2 * 7 * 6 * 6 * 3 * 2)[1]
+    post: _
+    """
+    ki, opi, fi, count, size_i, skip = digits(k, [2, 7, 6, 6, 3, 2])
+    with NoTracing():
+        excl = os.environ.get('VT_EXCLUDE', '').split(',')
+        if 'F10' in excl and ki == 1 and RFAULTS[fi] in ('503', '500', '401') and COUNTS[count] >= 10 ** 9:
+            return True
+        ok, msg = remote_fault_case(['s3', 'b2'][ki], ROPS[opi], RFAULTS[fi], COUNTS[count], size_i, skip)
+        tick('e_remote_faults', [['s3', 'b2'][ki], ROPS[opi], RFAULTS[fi], count, size_i, skip])
+        if not ok:
+            _say(msg)
+        return ok
